@@ -163,9 +163,10 @@ CLAIMED = {
             "prelude is regenerated from the three defs.jq and the native registry of /repo on every run; compiled look-up tables of "
             "the implementation are compared with the model compiler's forest (variable indices, skip counts, call wiring) and output "
             "streams with the model interpreter on scope-aware random programs. Theorems: stream-algebra laws; compile_correct (binding core, "
-            "paths, folds, label/break), compile_defs (recursive, nested, variable-capturing definitions) and compile_params (definitions "
-            "with variable parameters, arguments evaluated in order) against separately written named semantics. Partial: filter "
-            "parameters, objects, strings and destructuring patterns rest on the correspondence.", "7.1",
+            "paths, folds, label/break), compile_defs (recursive, nested, variable-capturing definitions), compile_params (variable "
+            "parameters, arguments evaluated in order) and compile_closures (filter parameters as closures over the caller's environment, "
+            "related step-indexed) against separately written named semantics. Partial: objects, strings, destructuring patterns, "
+            "updates/paths through definitions and native filters rest on the correspondence.", "7.1",
             "Coq model + table/stream correspondence on generated programs (proof partial)"),
     "C08": ("Theorems: float_cmp is a total preorder with trichotomy on NaN-free floats; integer order/equality exact for every "
             "representation. Correspondence: all pairs of a 90-atom pool (every number representation and boundary) and random trees "
